@@ -526,6 +526,29 @@ pub struct CmdEvent {
     pub slab: i64,
 }
 
+/// Last `loop_idle` hook event of a worker thread (event loop about to sleep).
+#[derive(Clone, Copy, Debug)]
+pub struct IdleEvent {
+    pub slab: i64,
+    pub nb: i64,
+    pub base: i64,
+}
+
+static IDLE: OnceLock<Mutex<HashMap<String, IdleEvent>>> = OnceLock::new();
+
+fn idle_store() -> &'static Mutex<HashMap<String, IdleEvent>> {
+    IDLE.get_or_init(|| Mutex::new(HashMap::new()))
+}
+
+/// The most recent `loop_idle` snapshot of worker thread `name`, if the tree has that hook.
+pub fn last_idle(name: &str) -> Option<IdleEvent> {
+    idle_store().lock().unwrap_or_else(|p| p.into_inner()).get(name).copied()
+}
+
+pub fn forget_idle(name: &str) {
+    idle_store().lock().unwrap_or_else(|p| p.into_inner()).remove(name);
+}
+
 static EVENTS: OnceLock<Mutex<HashMap<String, Vec<CmdEvent>>>> = OnceLock::new();
 
 fn store() -> &'static Mutex<HashMap<String, Vec<CmdEvent>>> {
@@ -536,6 +559,13 @@ fn store() -> &'static Mutex<HashMap<String, Vec<CmdEvent>>> {
 /// name (= the worker's name). Returns false when the tree has no such hook.
 pub fn install_cmd_sink() -> bool {
     sozu_lib::verif::install(Box::new(|e| {
+        if e.kind == "loop_idle" {
+            let num = |k: &str| e.nums.iter().find(|(n, _)| *n == k).map(|(_, v)| *v).unwrap_or(-1);
+            let idle = IdleEvent { slab: num("slab"), nb: num("nb"), base: num("base") };
+            let mut g = idle_store().lock().unwrap_or_else(|p| p.into_inner());
+            g.insert(e.thread.clone(), idle);
+            return;
+        }
         if e.kind != "worker_cmd" {
             return;
         }
